@@ -79,7 +79,7 @@ UNIT = Unit(
     name="U-SCOPE",
     properties=["C05", "C16"],
     # the let-annotation clause (the annotation is lowered by the import-checking lowering) is C16's; everything else is C05's
-    clause_scope={"C16": {"only": ["let_annotation_import_checked(", "params_import_checked("]}, "C05": {"except": ["let_annotation_import_checked(", "params_import_checked("]}},
+    clause_scope={"C16": {"only": ["import_checked("]}, "C05": {"except": ["import_checked("]}},
     rules=["attrs", "iter_map_collect"],
     describe="name resolution's scoping: ResolveLocalEnv (new / enter_scope / add) and the six scoping-relevant arms of "
              "NameResolution::resolve_expr (block, match, closure, let, if, while) and six pass-through arms (unary, binary, projection, tuple, array, go) against the rule `leak`: a `let` leaves exactly its "
